@@ -15,7 +15,13 @@
                     None -> Err; scale > decimals -> Err (never Ok);
  * checked-exit   : decimal_to_amount / decimal_to_value leave through `TryInto::try_into` + map_err (no `as`);
  * sign           : signed_* negate exactly when `num.is_negative()` and convert `unsigned_abs()`;
- * clamp          : unsigned_amount_to_decimal passes decimals <= 28 to unsigned_fixed_to_decimal.
+ * clamp          : unsigned_amount_to_decimal passes decimals <= 28 to unsigned_fixed_to_decimal;
+ * scale-provenance: at every site that hands a (number, scale) pair on — `Decimal::try_from_i128_with_scale`,
+                    `from_i128_with_scale`, and the module's own `*_to_decimal` / `convert_by_change_the_scale` calls — a
+                    symbolic execution of each path shows  scale = <caller's decimals> - K  where 10^K is EXACTLY what the
+                    number was divided by on that path (K = 0: both unchanged; K = scale_diff with `num /= 10^scale_diff`;
+                    K = decimals - 28 with the compensating division in unsigned_amount_to_decimal). A scale that was capped,
+                    min-ed or replaced without the matching division of the number is a silently mis-scaled value.
 """
 import json
 import os
@@ -51,6 +57,7 @@ def run(ctx):
     ctx.rule("checked-exit", "decimal_to_amount / decimal_to_value convert with TryInto + map_err")
     ctx.rule("sign", "signed conversions negate exactly under is_negative() and convert unsigned_abs()")
     ctx.rule("clamp", "unsigned_amount_to_decimal calls unsigned_fixed_to_decimal with decimals <= 28")
+    ctx.rule("scale-provenance", "at every (number, scale) hand-off the scale is the caller's decimals minus exactly the power of ten the number was divided by on that path")
 
     c_repr = ctx.const(MOD + "MAX_REPR")
     c_ts = ctx.const(MOD + "TARGET_SCALE")
@@ -147,6 +154,7 @@ def run(ctx):
     _exits(ctx, prog)
     _sign(ctx, prog)
     _clamp(ctx, prog)
+    _scale_provenance(ctx, prog, fns)
 
 
 def _rescale(ctx, prog):
@@ -263,3 +271,139 @@ def _clamp(ctx, prog):
     facts = A.cmp_facts(f, zero[0]) if zero else []
     okz = okz and A.has_fact(facts, ">", r"SubWithOverflow", r"^(19|unsigned_amount_to_decimal::MAX_SCALE_FOR_U64)$")
     ctx.ob("clamp:zero-when-beyond-u64", okz, "returns Decimal::ZERO only under scale_diff > MAX_SCALE_FOR_U64 (19)", where=f.where())
+
+
+# ---------------------------------------------------------------------------------------------- scale provenance
+
+SITE_RE = re.compile(r"(Decimal::(try_from_i128_with_scale|from_i128_with_scale)$|"
+                     r"gmsol_sdk::utils::fixed::((un)?signed_(fixed|amount)_to_decimal|unsigned_fixed_to_decimal::convert_by_change_the_scale)$)")
+TRANSPARENT_NUM = re.compile(r"(::unsigned_abs$|convert::From::from$|convert::Into::into$|::abs$)")
+
+
+def _sym_exec(fn, blocks, stop_bb):
+    """Symbolic execution of one acyclic path up to (not including) the terminator of stop_bb.
+    Values: ('v', base Lin, K Lin)  = base / 10^K   |  ('p', e Lin) = 10^e   |  None (not an integer we follow).
+    Entry: parameter 0 = atom N (the number), parameter 1 = atom D (the caller's decimals / scale)."""
+    env = {}
+    ints = ("u8", "u16", "u32", "u64", "u128", "usize", "i8", "i16", "i32", "i64", "i128", "isize")
+    if fn.arg_count >= 1 and fn.locals[1][0] in ints:
+        env[1] = ("v", Lin.atom("N"), Lin({}, 0))
+    if fn.arg_count >= 2 and fn.locals[2][0] in ints:
+        env[2] = ("v", Lin.atom("D"), Lin({}, 0))
+
+    def val(op):
+        if isinstance(op, dict):
+            if "int" in op:
+                try:
+                    return ("v", Lin({}, int(op["int"])), Lin({}, 0))
+                except ValueError:
+                    return None
+            return None
+        n = op[0]
+        projs = [p for p in op[1:]]
+        if projs in ([], [".0"]):
+            if n in env:
+                return env[n]
+            if fn.locals[n][0] in ints or projs == [".0"]:
+                return ("v", Lin.atom("_%d" % n), Lin({}, 0))
+        return None
+
+    for bb in blocks:
+        b = fn.blocks[bb]
+        for st in b["s"]:
+            if st[0] != "=" or len(st[1]) != 1:
+                continue
+            x, rv = st[1][0], st[2]
+            k = rv[0]
+            r = None
+            if k == "use":
+                r = val(rv[1])
+            elif k == "cast" and rv[1] == "IntToInt":
+                r = val(rv[2])
+            elif k == "bin":
+                op = rv[1].replace("WithOverflow", "").replace("Unchecked", "")
+                a, c = val(rv[2]), val(rv[3])
+                if op in ("Add", "Sub") and a and c and a[0] == "v" and c[0] == "v" and a[2].is_const() and a[2].k == 0 and c[2].is_const() and c[2].k == 0:
+                    r = ("v", a[1].add(c[1]) if op == "Add" else a[1].sub(c[1]), Lin({}, 0))
+                elif op == "Div" and a and c and a[0] == "v" and c[0] == "p":
+                    r = ("v", a[1], a[2].add(c[1]))
+                elif op in ("Add", "Sub", "Mul", "Div", "Rem", "Shl", "Shr", "BitAnd", "BitOr"):
+                    r = ("v", Lin.atom("_%d" % x), Lin({}, 0))      # opaque result
+            if r is not None:
+                env[x] = r
+            elif x in env:
+                del env[x]
+        if bb == stop_bb:
+            break
+        t = b["t"]
+        if t[0] == "call":
+            c = t[1]
+            d = c["dest"]
+            if len(d) != 1:
+                continue
+            nm = c.get("resolved_def") or c.get("callee_def") or c.get("resolved") or c.get("callee") or ""
+            nm2 = c.get("callee") or ""
+            args = c["args"]
+            r = None
+            if re.search(r"num::<impl \w+>::pow$", nm2) and len(args) == 2:
+                base, e = val(args[0]), val(args[1])
+                if base and e and base[0] == "v" and base[1].is_const() and base[1].k == 10 and e[0] == "v" and e[2].is_const() and e[2].k == 0:
+                    r = ("p", e[1])
+            elif (TRANSPARENT_NUM.search(nm2) or TRANSPARENT_NUM.search(nm)) and len(args) == 1:
+                r = val(args[0])
+            if r is None and fn.locals[d[0]][0] in ints:
+                r = ("v", Lin.atom("_%d" % d[0]), Lin({}, 0))       # opaque integer produced by a call (min, clamp, ilog10, ..)
+            if r is not None:
+                env[d[0]] = r
+            elif d[0] in env:
+                del env[d[0]]
+    return env, val
+
+
+def _scale_provenance(ctx, prog, fns):
+    n_sites = 0
+    for f in sorted(fns, key=lambda g: g.id):
+        sites = [cs for cs in f.calls if SITE_RE.search(cs.callee or "") or SITE_RE.search(getattr(cs, "callee_def", None) or "")]
+        if not sites:
+            continue
+        table = A.decision_table(f)
+        for cs in sites:
+            n_sites += 1
+            msgs, bad = [], []
+            n_paths = 0
+            seen = set()
+            for p in table:
+                if p["diverges"] and cs.bb not in p["blocks"]:
+                    continue
+                if cs.bb not in p["blocks"]:
+                    continue
+                blocks = p["blocks"][:p["blocks"].index(cs.bb) + 1]
+                if tuple(blocks) in seen:
+                    continue
+                seen.add(tuple(blocks))
+                n_paths += 1
+                env, val = _sym_exec(f, blocks, cs.bb)
+                num, sc = val(cs.args[0]), val(cs.args[1])
+                has_d = 2 in _sym_exec(f, [], -1)[0]
+                why = None
+                if not num or num[0] != "v" or num[1] != Lin.atom("N"):
+                    why = "the number is not the caller's number (possibly divided by a power of ten): %s" % (num,)
+                elif not sc or sc[0] != "v" or not (sc[2].is_const() and sc[2].k == 0):
+                    why = "the scale is not an integer expression: %s" % (sc,)
+                else:
+                    kn = num[2]
+                    if has_d:
+                        ks = Lin.atom("D").sub(sc[1])
+                        if ks != kn:
+                            why = "scale = %s, i.e. decimals - (%s), but the number was divided by 10^(%s)" % (sc[1], ks, kn)
+                    elif not (sc[1].is_const() and kn.is_const() and kn.k == 0):
+                        why = "constant-decimals entry point passes scale %s with the number divided by 10^(%s)" % (sc[1], kn)
+                    msgs.append("scale=%s with number/10^(%s)" % (sc[1], kn))
+                if why:
+                    bad.append(why)
+            ctx.ob("scale-provenance:%s:%s" % (f.short, cs.short), not bad and n_paths >= 1,
+                   "%s -> %s: on each of %d path(s) the scale is the caller's decimals minus exactly the exponent the number was divided by [%s]%s" % (
+                       f.short, cs.short, n_paths, "; ".join(sorted(set(m.replace("N", "num").replace("D", "decimals") for m in msgs))),
+                       "; MIS-SCALED: %s" % sorted(set(b.replace("D", "decimals") for b in bad))[:2] if bad else ""),
+                   where=cs.where())
+    ctx.floor("scale-provenance", n_sites, 8)
